@@ -147,8 +147,52 @@ def monitor(rep, idx, c):
            f"loop at line {L.lineno} over {ir.show(L.iter)}")
 
     # C13.4 -- outgoing line
+    if or_over_sources(rep, c, L, k):
+        return
     single_unconditional(rep, "C13.4", c, "src.i == (enable & pending).any()", c.parse("self.src.i"), "comb",
                          "(self.enable & self.pending).any()")
+
+
+def or_over_sources(rep, c, L, k):
+    """src.i written as the OR, over every source of the event map, of enable[k] & pending[k] (an accumulator filled in
+    the sources() loop).  sources() numbers the sources 0 .. size-1 without gaps (C14) and enable / pending are declared
+    event_map.size bits wide, so that OR ranges over every bit: it is (enable & pending).any()."""
+    ds = c.drivers_of(c.parse("self.src.i"))
+    if len(ds) != 1 or ds[0].domain != "comb" or any(fr[0] != 'pyif' for fr in ds[0].dsl) or ds[0].gen:
+        return False
+    v = c.norm(ds[0].value)
+    if v[0] != 'acc' or v[1] not in c.t.accs:
+        return False
+    acc = c.t.accs[v[1]]
+    site = c.fi.site
+    what = "src.i == (enable & pending).any()"
+    init = c.norm(acc.init)
+    zero = init == ('const', 0) or (init[0] == 'call' and init[1] == ('name', 'Const') and init[2] and init[2][0] == ('const', 0))
+    if acc.op != '|' or not zero or acc.home:
+        rep.unk("C13.4", site, what, f"src.i is an accumulator ({acc.op}, initial value {ir.show(init)}) outside the recognised OR-over-sources shape")
+        return True
+    want = {c.norm(ir.parse("self.enable[k] & self.pending[k]", {"k": k}))}
+    terms = [(c.norm(t), gen, dsl_) for t, gen, dsl_, ln in acc.terms]
+    in_loop = all([fr for fr in gen if fr[0] in ('for', 'pyif')] == [('for', L.id)] and not dsl_ for t, gen, dsl_ in terms)
+    if len(terms) == 1 and terms[0][0] in want and in_loop:
+        # widths: both vectors are declared with event_map.size bits
+        init_fn = c.fi.cls.method("__init__")
+        src_ = ast.unparse(init_fn.node) if init_fn is not None else ""
+        sized = all(any(f'"{nm}"' in ln_ or f"'{nm}'" in ln_ for ln_ in src_.splitlines() if ".size" in ln_) for nm in ("enable", "pending"))
+        rep.form(sized, "C13.4", site, what, "OR over every source of enable[k] & pending[k]; the index range of sources() is 0 .. size-1 "
+                 "(C14) and both vectors are event_map.size bits wide")
+        return True
+    named = None
+    if len(terms) == 1 and in_loop:
+        t = terms[0][0]
+        if t == c.norm(ir.parse("self.pending[k]", {"k": k})):
+            named = "the enable mask is not applied: a masked pending event raises the line"
+        elif t == c.norm(ir.parse("self.enable[k]", {"k": k})):
+            named = "pending is not consulted: the line follows the enable mask alone"
+        elif t in {c.norm(ir.parse("self.enable[k] | self.pending[k]", {"k": k}))}:
+            named = "enable and pending are OR-ed instead of AND-ed"
+    rep.form(False, "C13.4", site, what, f"accumulated terms: {[ir.show(t)[:60] for t, g_, d_ in terms]}", wrong=named)
+    return True
 
 
 def A(base, *names):
